@@ -9,6 +9,7 @@ package main
 
 import (
 	"bytes"
+
 	"context"
 	"crypto/sha256"
 	"encoding/binary"
@@ -26,6 +27,7 @@ import (
 	"sync"
 	"syscall"
 	"time"
+	"verif/harness/gen"
 )
 
 var verifRoot = func() string {
@@ -242,8 +244,26 @@ func run(p *prop, tier string) int {
 	return runWith(p, tier, work, bins)
 }
 
+// lookalikeFile computes the hash-collision lookalikes once per driver run (0.6 s on 8 cores) and
+// writes them where the property tests load them from.
+var lookalikeOnce sync.Once
+
+func lookalikeFile(work string) string {
+	path := filepath.Join(work, "lookalikes.json")
+	lookalikeOnce.Do(func() {
+		b, err := json.Marshal(gen.Lookalikes())
+		if err == nil {
+			os.WriteFile(path, b, 0o644)
+		}
+	})
+	return path
+}
+
 func runWith(p *prop, tier string, work string, bins map[string]string) int {
 	start := time.Now()
+	if p.id == "C03" || p.id == "C15" {
+		os.Setenv("VERIF_LOOKALIKES", lookalikeFile(work))
+	}
 	seed := seedValue()
 	evidencePath := filepath.Join(evidenceDir(), p.id+".json")
 	os.MkdirAll(filepath.Dir(evidencePath), 0o755)
